@@ -13,10 +13,10 @@ Definition replay_texp_exact : bool := true.
 Definition replay_keyf_weights : list N := [1; 256; 65536; 16777216; 0; 0; 0; 0; 0; 0; 0; 0; 0; 0; 0; 0].
 Definition replay_keyf_modulus : N := 4294967296.
 Definition replay_keyf_linear : bool := true.
-Definition replay_cmp_len : nat := 8.
+Definition replay_cmp_len : nat := 16.
 Definition replay_cmp_unsigned : bool := true.
 Definition replay_cmp_time_tiebreak : bool := true.
-Definition replay_cmp_mac_first : bool := false.
+Definition replay_cmp_mac_first : bool := true.
 Definition replay_expired_when_lt : bool := true.
 Definition replay_expired_when_eq : bool := false.
 Definition replay_expired_when_gt : bool := false.
